@@ -21,29 +21,30 @@ type Op struct {
 
 // OpProfile tunes the operation generator.
 type OpProfile struct {
-	Depth       int
-	Width       int
-	PAlias      float64
-	PVar        float64 // argument given as variable
-	PFragment   float64 // wrap part of a selection in a named fragment
-	PInline     float64
-	PDirective  float64 // @skip/@include
-	PDirVar     float64 // directive argument is a variable
-	PNodeRoot   float64
-	PTypename   float64
-	PExplicitID float64
-	POpName     float64
-	PMultiOp    float64
-	PVarDefault float64 // variable declared with default
-	PVarOmit    float64 // value omitted although declared
-	PVarNull    float64
-	MaxRoots    int
-	Kind        ast.Operation
-	PArgsAlways bool // never omit optional arguments
-	ForceName   string // operation name to use (always sent as operationName)
-	HostileStrings bool // string literals / variable values with quotes, backslashes, unicode, control characters
-	Pool        int  // id pool size for node roots
-	IDStyle     int
+	Depth          int
+	Width          int
+	PAlias         float64
+	PVar           float64 // argument given as variable
+	PFragment      float64 // wrap part of a selection in a named fragment
+	PInline        float64
+	PDirective     float64 // @skip/@include
+	PDirVar        float64 // directive argument is a variable
+	PNodeRoot      float64
+	PTypename      float64
+	PExplicitID    float64
+	POpName        float64
+	PMultiOp       float64
+	PVarDefault    float64 // variable declared with default
+	PVarOmit       float64 // value omitted although declared
+	PVarNull       float64
+	MaxRoots       int
+	Kind           ast.Operation
+	PArgsAlways    bool    // never omit optional arguments
+	ForceName      string  // operation name to use (always sent as operationName)
+	HostileStrings bool    // string literals / variable values with quotes, backslashes, unicode, control characters
+	Pool           int     // id pool size for node roots
+	PMirror        float64 // select one root field twice (aliases m1/m2) with near-identical sub-selections
+	IDStyle        int
 }
 
 func DefaultOpProfile() OpProfile {
@@ -66,6 +67,10 @@ type opGen struct {
 	tags  map[string]bool
 	nvar  int
 	nfrag int
+	// mirror mode: the second copy of a mirrored root field replays the same random stream;
+	// mr (a separate stream) decides where it deviates (explicit id flipped, a sub-field dropped)
+	mirror bool
+	mr     *rand.Rand
 }
 
 func (g *opGen) tag(t string) { g.tags[t] = true }
@@ -168,6 +173,13 @@ func (g *opGen) rootSelection(root *ast.Definition, kw string) string {
 	}
 	var parts []string
 	usedKeys := map[string]bool{}
+	if kw == "query" && g.p.PMirror > 0 && g.chance(g.p.PMirror) {
+		if s := g.mirrorRoot(root, fields); s != "" {
+			usedKeys["m1"], usedKeys["m2"] = true, true
+			parts = append(parts, s)
+			n--
+		}
+	}
 	for i := 0; i < n; i++ {
 		f := pick(g.r, fields)
 		if f.Name == "node" {
@@ -201,6 +213,38 @@ func (g *opGen) rootSelection(root *ast.Definition, kw string) string {
 		g.tag("multi-root")
 	}
 	return "{ " + strings.Join(parts, " ") + " }"
+}
+
+// mirrorRoot selects one composite root field twice under aliases m1 and m2.  Both copies are
+// generated from the same random stream, so they are identical except where the mirror stream
+// flips an explicit id or drops a sub-field: the same entities then appear under two response
+// paths with (nearly) the same follow-up requests.
+func (g *opGen) mirrorRoot(root *ast.Definition, fields []*ast.FieldDefinition) string {
+	var cands []*ast.FieldDefinition
+	for _, f := range fields {
+		if f.Name != "node" && isComposite(g.s.Types[f.Type.Name()]) {
+			cands = append(cands, f)
+		}
+	}
+	if len(cands) == 0 {
+		return ""
+	}
+	f := pick(g.r, cands)
+	td := g.s.Types[f.Type.Name()]
+	args := g.arguments(f.Arguments)
+	seed := g.r.Int63()
+	main := g.r
+	defer func() { g.r = main; g.mirror = false }()
+	g.r = rand.New(rand.NewSource(seed))
+	s1 := g.selectionSet(td, g.p.Depth-1)
+	g.r = rand.New(rand.NewSource(seed))
+	g.mirror, g.mr = true, rand.New(rand.NewSource(seed^0x5bd1e995))
+	s2 := g.selectionSet(td, g.p.Depth-1)
+	g.tag("mirror")
+	if s1 != s2 {
+		g.tag("mirror-deviates")
+	}
+	return "m1: " + f.Name + args + " " + s1 + " m2: " + f.Name + args + " " + s2
 }
 
 func (g *opGen) entityTypes() []*ast.Definition {
@@ -506,7 +550,11 @@ func (g *opGen) fields(def *ast.Definition, depth int, used map[string]bool) []s
 			continue
 		}
 		if f.Name == "id" {
-			if g.chance(g.p.PExplicitID) {
+			sel := g.chance(g.p.PExplicitID)
+			if g.mirror && g.mr.Intn(2) == 0 {
+				sel = !sel
+			}
+			if sel {
 				parts = append(parts, "id")
 				used["id"] = true
 				g.tag("explicit-id")
@@ -514,6 +562,9 @@ func (g *opGen) fields(def *ast.Definition, depth int, used map[string]bool) []s
 			continue
 		}
 		cands = append(cands, f)
+		if g.p.PMirror > 0 && isComposite(g.s.Types[f.Type.Name()]) {
+			cands = append(cands, f, f) // mirrored operations favour object-valued fields (more follow-up requests)
+		}
 	}
 	if len(cands) == 0 {
 		return parts
@@ -523,6 +574,9 @@ func (g *opGen) fields(def *ast.Definition, depth int, used map[string]bool) []s
 	for i := 0; i < n; i++ {
 		f := pick(g.r, cands)
 		if s := g.field(def, f, depth, used); s != "" {
+			if g.mirror && len(sel) > 0 && g.mr.Intn(3) == 0 {
+				continue // the mirror copy leaves this one out
+			}
 			sel = append(sel, s)
 		}
 	}
